@@ -3,6 +3,8 @@ import Rustic.Model.Snapshot
 import Rustic.Gen.Constants
 import Driver.Util
 import Driver.C06
+import Driver.C01Ixr
+import Driver.C01Time
 /-! `c01 <esc|unesc|start|coalesce|link|e2e|e2el> …` — see harness/src/c01.rs. -/
 namespace Driver.C01
 open Rustic.RoundTrip Driver
@@ -95,12 +97,12 @@ def chunkLens (cfg : List String) (bs : List UInt8) : Option (List Nat) := do
     pure (Driver.C06.collect (Rustic.Rabin.roll t) p st [])
   else none
 
-/-- `gf=<n>`, `nr=<n>`, `as=<0|1>`: options between the configuration and the entries -/
+/-- `gf=<n>`, `nr=<n>`, `ro=<n>`, `as=<0|1>`, `rd=<0|1>`, `hl=<0|1>`: options between the configuration and the entries -/
 def isOpt (t : String) : Bool := t.contains '=' && !(t.contains ':')
 
 def optOk (t : String) : Bool :=
   match t.splitOn "=" with
-  | [k, v] => (k = "gf" || k = "nr" || (k = "as" && (v = "0" || v = "1"))) && v.toNat?.isSome
+  | [k, v] => (k = "gf" || k = "nr" || k = "ro" || ((k = "as" || k = "rd" || k = "hl") && (v = "0" || v = "1"))) && v.toNat?.isSome
   | _ => false
 
 def fileObs (cfg : List String) (p k l s : String) : Option String := do
@@ -195,6 +197,8 @@ def handle : List String → String
       | _ => "bad-op"
   | "e2e" :: rest => e2eObs rest
   | "e2el" :: rest => e2eObs rest
+  | "ixr" :: rest => Driver.C01Ixr.handle rest
+  | "time" :: rest => Driver.C01Time.handle rest
   | _ => "bad-op"
 
 end Driver.C01
